@@ -279,6 +279,35 @@ def _filter_lists(fn, coll, var, key, best, keys_name=None):
     return out
 
 
+def loose_minfilters(fn):
+    """best = min(KEY(v) for v in COLL) followed by a list of candidates filtered by a condition that mentions best but is NOT `KEY(v) == best`
+    (a tolerance, an inequality): the candidates are then not exactly the minimisers -> list of (best name, comprehension statement)"""
+    out = []
+    sa = _single_assigns(fn)
+    for bname, st in sa.items():
+        v = st.value
+        if not (isinstance(v, ast.Call) and isinstance(v.func, ast.Name) and v.func.id == "min" and v.args):
+            continue
+        src = v.args[0]
+        if isinstance(src, ast.Name) and src.id in sa:
+            src = sa[src.id].value
+        if not (isinstance(src, (ast.ListComp, ast.GeneratorExp)) and len(src.generators) == 1 and isinstance(src.generators[0].target, ast.Name)):
+            continue
+        g = src.generators[0]
+        coll, var, key = unparse(g.iter), g.target.id, unparse(src.elt)
+        for cname, cst in sa.items():
+            c = cst.value
+            if isinstance(c, ast.ListComp) and len(c.generators) == 1 and c.generators[0].ifs and unparse(c.generators[0].iter) == coll and precedes(fn, st, cst):
+                mentions = any(isinstance(y, ast.Name) and y.id == bname for t in c.generators[0].ifs for y in ast.walk(t))
+                exact = False
+                if len(c.generators[0].ifs) == 1 and isinstance(c.generators[0].target, ast.Name):
+                    want = tuple(sorted((_rename(key, var, c.generators[0].target.id), bname)))
+                    exact = guards.norm(c.generators[0].ifs[0], unparse) == ("eq",) + want
+                if mentions and not exact:
+                    out.append((bname, cst))
+    return out
+
+
 def find_minfilters(fn):
     out = []
     sa = _single_assigns(fn)
